@@ -250,6 +250,27 @@ Section Exec.
                           o_nomsg : list supp;
                           o_status : N }.
 
+  (* the unmatchedSuppression finding emitted for suppression s, as the suppression lists see
+     it (SuppressionList::ErrorMessage::fromErrorMessage: no call stack => no file, no line) *)
+  Definition unmatched_emsg (s : supp) : emsg :=
+    mkEmsg 0 UNMATCHED (s_file s)
+           (if is_nil (s_file s) then NO_LINE else if (s_line s =? NO_LINE)%Z then 0%Z else s_line s) [] [].
+
+  (* NofailFilter of check_internal: is some emitted finding not matched by nofail? *)
+  Fixpoint unmatched_fail (nofail : list supp) (u : list supp) : option bool :=
+    match u with
+    | [] => Some false
+    | s :: r =>
+        match list_is_suppressed pm nofail (unmatched_emsg s) true with
+        | None => None
+        | Some (nofail', b) =>
+            match unmatched_fail nofail' r with
+            | None => None
+            | Some fr => Some (negb b || fr)
+            end
+        end
+    end.
+
   Definition exec_files (k : option ekind) (nomsg nofail : list supp) (fs : list finput) : option srun :=
     match k with
     | None => single_files nomsg nofail fs
@@ -273,9 +294,14 @@ Section Exec.
             match um with
             | None => None
             | Some u =>
-                let rv2 := if negb (is_nil_list u) && (rv =? 0) then c_exitcode cfg else rv in
-                Some (mkO (sr_reported sr ++ pick outs wp) u (l_nomsg st)
-                          (if rv2 =? 0 then 0 else c_exitcode cfg))
+                (* fix 7b7622c: the emitted findings pass a filter that asks the exitcode suppressions *)
+                match unmatched_fail (l_nofail st) u with
+                | None => None
+                | Some fl =>
+                    let rv2 := if fl && (rv =? 0) then c_exitcode cfg else rv in
+                    Some (mkO (sr_reported sr ++ pick outs wp) u (l_nomsg st)
+                              (if rv2 =? 0 then 0 else c_exitcode cfg))
+                end
             end
         end
     end.
